@@ -323,3 +323,11 @@ for _p in ("C10", "C12"):
     PROPS[_p]["race_files"] = ()  # any access inside the repository (harness frames excluded)
     PROPS[_p]["rule"] += ("; plus a free-running pass of the -race binary: 2-16 clients in truly parallel goroutines (logins of different users and sizes, simultaneous staleness of all "
                          "sessions on two replicas): every browser must load its own session, and any race-detector report whose conflicting access lies in repository code is a violation")
+
+# quick tier sized to roughly 15-30 s per property on 16 workers (measured; see evidence wall_s)
+for _p, _n in {"C01": 2400, "C02": 240, "C03": 6000, "C04": 3200, "C05": 12000, "C06": 480, "C07": 6000, "C08": 8000, "C09": 6400, "C10": 8000, "C11": 16000,
+               "C12": 12000, "C13": 1600, "C14": 800, "C15": 800, "C16": 8000, "C17": 2400, "C18": 16000, "C19": 3000}.items():
+    PROPS[_p]["quick_runs"] = _n
+for _p in ("C10", "C12"):
+    PROPS[_p]["passes"] = [{"variant": ""}, {"race": True, "variant": "race", "quick_runs": 160, "thorough_runs": 1600, "workers": 8}]
+PROPS["C20"]["passes"] = [{"variant": "modeA", "instrumented": True, "quick_runs": 6000}, {"race": True, "variant": "race", "quick_runs": 480, "thorough_runs": 4000, "workers": 8}]
